@@ -22,11 +22,11 @@ static std::map<long, long> publish_at;	// push ticket -> global sequence at whi
 static const volatile void *a_preadP, *a_preadC, *a_seqP0, *a_seqP1;
 
 extern "C" void vs_hook_cas(const volatile void *addr, unsigned long exchange, unsigned long compare, unsigned long result, int)
-{ ++gseq; if (cur && result == compare && (addr == a_preadP || addr == a_preadC)) { cur->ticket = (long)compare; cur->cas_at = gseq; } }
+{ VS_BOOKKEEPING_BEGIN(); ++gseq; if (cur && result == compare && (addr == a_preadP || addr == a_preadC)) { cur->ticket = (long)compare; cur->cas_at = gseq; } VS_BOOKKEEPING_END(); }
 extern "C" void vs_hook_set(const volatile void *addr, unsigned long value, int)
-{ ++gseq; if (cur && cur->push && (addr == a_seqP0 || addr == a_seqP1)) publish_at[cur->ticket] = gseq; }
+{ VS_BOOKKEEPING_BEGIN(); ++gseq; if (cur && cur->push && (addr == a_seqP0 || addr == a_seqP1)) publish_at[cur->ticket] = gseq; VS_BOOKKEEPING_END(); }
 extern "C" void vs_hook_read(const volatile void *addr, unsigned long, int)
-{ ++gseq; if (cur && !cur->push && (addr == a_seqP0 || addr == a_seqP1)) cur->observe_seq = gseq; }
+{ VS_BOOKKEEPING_BEGIN(); ++gseq; if (cur && !cur->push && (addr == a_seqP0 || addr == a_seqP1)) cur->observe_seq = gseq; VS_BOOKKEEPING_END(); }
 
 static int tokens[64];
 struct Arg { int id; };
@@ -34,8 +34,11 @@ static void *producer(void *a)
 {
 	int id = ((Arg *)a)->id;
 	for (int k = 0; k < NPUSH; ++k) {
-		OpRec *r = &ops[id * 8 + k]; r->thread = id; r->push = true; r->token = id * 10 + k; tokens[r->token] = r->token;
-		cur = r; r->start = ++gseq; r->ok = Q->push(&tokens[r->token]); r->end = ++gseq; cur = nullptr;
+		const int tok = id * 10 + k;
+		VS_BOOKKEEPING_BEGIN(); OpRec *r = &ops[id * 8 + k]; r->thread = id; r->push = true; r->token = tok; cur = r; r->start = ++gseq; VS_BOOKKEEPING_END();
+		tokens[tok] = tok;	// the element's content: written by the producer, read by the consumer that pops it (visible to ThreadSanitizer)
+		const bool ok = Q->push(&tokens[tok]);
+		VS_BOOKKEEPING_BEGIN(); r->ok = ok; r->end = ++gseq; cur = nullptr; VS_BOOKKEEPING_END();
 	}
 	return 0;
 }
@@ -43,9 +46,10 @@ static void *consumer(void *a)
 {
 	int id = ((Arg *)a)->id;
 	for (int k = 0; k < NPOP; ++k) {
-		OpRec *r = &ops[(8 + id) * 8 + k]; r->thread = 100 + id; r->push = false;
-		void *p = nullptr; cur = r; r->start = ++gseq; r->ok = Q->pop(&p); r->end = ++gseq; cur = nullptr;
-		r->token = r->ok && p ? *(int *)p : -1;
+		VS_BOOKKEEPING_BEGIN(); OpRec *r = &ops[(8 + id) * 8 + k]; r->thread = 100 + id; r->push = false; cur = r; r->start = ++gseq; VS_BOOKKEEPING_END();
+		void *p = nullptr; const bool ok = Q->pop(&p);
+		const int tok = ok && p ? *(int *)p : -1;	// reading the element is the consumer's business: visible to ThreadSanitizer
+		VS_BOOKKEEPING_BEGIN(); r->ok = ok; r->end = ++gseq; cur = nullptr; r->token = tok; VS_BOOKKEEPING_END();
 	}
 	return 0;
 }
